@@ -16,6 +16,7 @@ import (
 	"errors"
 	"fmt"
 	"io"
+	"runtime"
 	"strconv"
 	"strings"
 	"time"
@@ -424,6 +425,39 @@ func init() {
 			return "FAIL differs"
 		}
 		return "ok " + ref.String()
+	}
+	// prop.c08.blob <raw blob>: a blob as it comes from the bucket (the gzip container itself may
+	// be damaged or lie about its size): never a panic, never a hang, and memory in proportion to
+	// the blob (the loader sizes its buffer at 10x the blob)
+	implOps["prop.c08.blob"] = func(a []string) string {
+		b := mustUnhx(a[0])
+		ch := make(chan string, 1)
+		go func() {
+			defer func() {
+				if r := recover(); r != nil {
+					lastPanic = fmt.Sprint(r)
+					ch <- "FAIL panic"
+				}
+			}()
+			var m0, m1 runtime.MemStats
+			runtime.ReadMemStats(&m0)
+			s, err := snapshot.LoadData(b)
+			if err == nil {
+				_, err = customContent(s)
+			}
+			runtime.ReadMemStats(&m1)
+			if alloc := m1.TotalAlloc - m0.TotalAlloc; alloc > uint64(64*len(b))+(32<<20) {
+				ch <- fmt.Sprintf("FAIL allocation-out-of-proportion blob=%d-bytes allocated=%d-bytes", len(b), alloc)
+				return
+			}
+			ch <- "ok"
+		}()
+		select {
+		case r := <-ch:
+			return r
+		case <-time.After(10 * time.Second):
+			return "FAIL hang"
+		}
 	}
 	// prop.c08.total <bytes>: the blob, inside a valid gzip container, through LoadData and a
 	// full iteration of every DBI: never a panic, never a hang, decoded content no larger
